@@ -47,7 +47,8 @@ namespace nmtools::index
             
             auto src_i = (src_1 < src_2 ? src_1 : src_2);
 
-            at(result,r_idx) = src_i;
+            // a diagonal that lies outside the matrix is empty
+            at(result,r_idx) = (src_i > 0 ? src_i : 0);
         }
         
         return result;
@@ -77,8 +78,11 @@ namespace nmtools::index
             at(result,i) = idx;
         }
 
-        at(result,axis1) = at(indices,meta::ct_v<-1>);
-        at(result,axis2) = at(indices,meta::ct_v<-1>) + offset;
+        // a positive offset starts the diagonal at column offset, a negative one at row -offset
+        nm_index_t m_offset = offset;
+        nm_index_t idx_k = at(indices,meta::ct_v<-1>);
+        at(result,axis1) = (m_offset < 0 ? idx_k - m_offset : idx_k);
+        at(result,axis2) = (m_offset > 0 ? idx_k + m_offset : idx_k);
 
         return result;
     }
